@@ -185,42 +185,61 @@ def _module_level_nodes(tree):
         stack.extend(ast.iter_child_nodes(n))
 
 
-def _is_json_load(mod, call):
+def _json_source(mod, call):
+    """the file-object expression of `json.load(src)` / `json.loads(src.read())`, else None"""
     if not isinstance(call, ast.Call):
-        return False
+        return None
     d = dotted(call.func)
-    if d is None:
-        return False
-    head = d.split(".")[0]
-    if d.endswith(".load") and mod.imports.get(head, (None, None))[0] == "json" and d.count(".") == 1:
-        return True
-    return d == "load" and mod.imports.get("load") == ("json", "load")
+    if d is None or len(call.args) != 1:
+        return None
+    head, last = d.split(".")[0], d.split(".")[-1]
+    is_json = (d.count(".") == 1 and mod.imports.get(head, (None, None))[0] == "json") or (d.count(".") == 0 and mod.imports.get(d, (None, None))[0] == "json")
+    if not is_json:
+        return None
+    if last == "load":
+        return call.args[0]
+    if last == "loads":
+        a0 = call.args[0]
+        if isinstance(a0, ast.Call) and isinstance(a0.func, ast.Attribute) and a0.func.attr == "read" and not a0.args:
+            return a0.func.value
+    return None
 
 
 def locate_table(repo):
     """(global name the table is bound to, JSON file path relative to the repo, lineno)"""
     mod = repo.mod(CG_REL)
-    found = []
+    found = []  # (assignment, json call, scope to search for the `with open(...)`)
     for n in _module_level_nodes(mod.tree):
-        if isinstance(n, ast.Assign) and len(n.targets) == 1 and isinstance(n.targets[0], ast.Name) and _is_json_load(mod, n.value):
-            found.append(n)
+        if not (isinstance(n, ast.Assign) and len(n.targets) == 1 and isinstance(n.targets[0], ast.Name)):
+            continue
+        if _json_source(mod, n.value) is not None:
+            found.append((n, n.value, mod.tree))
+        elif isinstance(n.value, ast.Call) and isinstance(n.value.func, ast.Name) and not n.value.args and not n.value.keywords:
+            # a small loader function: def _load(): with open(..) as f: return json.load(f)
+            f = mod.funcs.get(n.value.func.id)
+            if f is not None and f.parent is None:
+                inner = [c for c in ast.walk(f.node) if _json_source(mod, c) is not None]
+                rets = [r for r in ast.walk(f.node) if isinstance(r, ast.Return)]
+                if len(inner) == 1 and len(rets) == 1 and rets[0].value is not None and (
+                    rets[0].value is inner[0]
+                    or (isinstance(rets[0].value, ast.Name) and any(isinstance(a_, ast.Assign) and a_.value is inner[0] and isinstance(a_.targets[0], ast.Name) and a_.targets[0].id == rets[0].value.id for a_ in ast.walk(f.node)))
+                ):
+                    found.append((n, inner[0], f.node))
     if len(found) != 1:
         raise AnalysisError("%s: expected exactly one module-level `<name> = json.load(...)`, found %d" % (CG_REL, len(found)))
-    asg = found[0]
-    if len(asg.value.args) != 1:
-        raise AnalysisError("%s: json.load call shape not modelled: %s" % (CG_REL, norm_text(asg.value)))
-    src = asg.value.args[0]
+    asg, jcall, scope = found[0]
+    src = _json_source(mod, jcall)
     open_call = None
     if isinstance(src, ast.Call) and dotted(src.func) == "open":
         open_call = src
     elif isinstance(src, ast.Name):
-        for n in _module_level_nodes(mod.tree):
+        for n in ast.walk(scope):
             if isinstance(n, ast.With):
                 for it in n.items:
                     if (
                         isinstance(it.optional_vars, ast.Name) and it.optional_vars.id == src.id
                         and isinstance(it.context_expr, ast.Call) and dotted(it.context_expr.func) == "open"
-                        and any(s is asg for s in ast.walk(n))
+                        and any(s_ is jcall for s_ in ast.walk(n))
                     ):
                         open_call = it.context_expr
     if open_call is None or not open_call.args:
@@ -644,10 +663,19 @@ def _assign(tgt, val, s, where):
         s["env"][tgt.id] = val
         s["fns"].pop(tgt.id, None)
     elif isinstance(tgt, (ast.Tuple, ast.List)) and isinstance(val, (ast.Tuple, ast.List)) and len(tgt.elts) == len(val.elts):
-        for t, v in zip(tgt.elts, val.elts):
-            if not isinstance(t, ast.Name):
+        pairs = []
+
+        def flat(t, v):
+            if isinstance(t, ast.Name):
+                pairs.append((t, v))
+            elif isinstance(t, (ast.Tuple, ast.List)) and isinstance(v, (ast.Tuple, ast.List)) and len(t.elts) == len(v.elts):
+                for t2, v2 in zip(t.elts, v.elts):
+                    flat(t2, v2)
+            else:
                 raise AnalysisError("%s: assignment target not modelled" % where)
-        for t, v in zip(tgt.elts, val.elts):
+
+        flat(tgt, val)
+        for t, v in pairs:
             s["env"][t.id] = v
     else:
         raise AnalysisError("%s: assignment `%s = ...` not modelled" % (where, norm_text(tgt)))
